@@ -225,7 +225,7 @@ def _orcid(rng) -> str:
 
 def gen_person(rng) -> dict:
     return {
-        "name": gen_string(rng) or "N",
+        "name": "" if rng.random() < 0.12 else (gen_string(rng) or "N"),
         "orcid_id": _orcid(rng) if rng.random() < 0.4 else None,
         "corresponding": rng.random() < 0.35,
         "role": (gen_string(rng) or None) if rng.random() < 0.5 else None,
@@ -323,7 +323,7 @@ def generate(rng, tier, i):
                                 "two_d": rng.random() < 0.2})
                 elif blocks:
                     ops.append({"op": "block_bad_name", "block": rng.choice(blocks),
-                                "name": rng.choice(["has space", "tab\tname", "line\nbreak"])})
+                                "name": rng.choice(["has space", "tab\tname", "line\nbreak", "cr\rname", "\r"])})
             else:
                 sel = rng.sample(blocks, rng.randrange(1, min(3, len(blocks)) + 1))
                 ops.append({"op": "save_blocks", "blocks": sel, "comment": gen_comment(rng),
@@ -394,7 +394,7 @@ def generate(rng, tier, i):
             elif r < 0.83:
                 ops.append({"op": "set_name", "cif": src, "name": gen_block_name(rng)})
             elif r < 0.84:
-                ops.append({"op": "cif_bad_name", "cif": src, "name": rng.choice(["has space", "a\tb", "x\ny"])})
+                ops.append({"op": "cif_bad_name", "cif": src, "name": rng.choice(["has space", "a\tb", "x\ny", "x\ry"])})
             elif r < 0.855:
                 ops.append({"op": "with_powder_bad", "cif": src,
                             "variant": rng.choice(["unit", "dim", "ndim", "name"])})
@@ -735,6 +735,13 @@ class CifEngine(Engine):
                         lib[op["cif"]].name = op["name"]
                 _, e_bad = core.capture(bad)
                 ctx.log("op", o, "refused:" + e_bad.name if e_bad else "ACCEPTED")
+                if e_bad is None and o in ("block_bad_name", "cif_bad_name"):
+                    # accepted: nothing in the statement says a name with white space must be
+                    # refused -- but then whatever is saved must still be valid CIF and carry the
+                    # name; the model follows and the next save is judged
+                    ctx.probe("name_with_white_space_accepted")
+                    mod[op["block"] if o == "block_bad_name" else op["cif"]].name = esc(op["name"])
+                    continue
                 if e_bad is None:
                     # accepted: nothing in the statement says it must be refused, but the
                     # reference model cannot follow an invalid object any further
@@ -1177,7 +1184,8 @@ class CifEngine(Engine):
                 continue
             cols = []
             for key, tag in (("name", "name"), ("email", "email"), ("address", "address")):
-                if any(a[key] for a in group):
+                # the name column is always there (a loop needs at least one column)
+                if key == "name" or any(a[key] for a in group):
                     cols.append([f"{cat}.{tag}", [{"t": "s", "v": a[key] or ""} for a in group]])
             if any(a["orcid_id"] for a in group):
                 def url(x):
